@@ -31,6 +31,19 @@ CHECKS = {
    text="All rows of the finite tables named in the property are executed on the real API and the raised exception type (or acceptance) is compared with the documented one. Exhaustive over the tables; nothing is sampled.",
    note="Expected exception types are read off the library's own raise statements and docstrings; the 6-argument direct-initialisation overload is not treated as an arity error.",
    ref="DESIGN.md 4/C16"),
+
+ "C01": dict(
+   engine="A-opcheck + B-cfgsolve",
+   technique="bounded exhaustive enumeration: (grid instance x unit face field x unit cell field) for the volume-weighted column sums; closure kind per axis x term subset x dt x scheme for 3-step solver histories; residual oracles for recorded findings",
+   text="On every grid instance of the bound the cellvolume-weighted column sums of every flux-form operator are evaluated for every unit face coefficient and every unit cell field (ghosts included): zero for interior faces, +-area*reference flux for boundary faces; TVD corrections for all {0,1,2} line fields x limiters; periodic closure with wrapped ghosts; then all closed configurations (no-flux/periodic per axis) x 6 term subsets x dt in {2^-10,1,2^10} x implicit/explicit x 3 steps, and open (Dirichlet/Robin) configurations with the boundary-flux balance. Exhaustive within these bounds.",
+   note="Bilinearity of the operators (C17b) makes the basis decisive; solver-level tolerance is 64*eps*cond(M); three recorded findings (SphericalGrid3D cellvolume, upwind+periodic seam, periodic with unequal end cells) are matched by key and must still satisfy their residual oracle.",
+   ref="DESIGN.md 4/C01"),
+ "C06": dict(
+   engine="A-opcheck + B-cfgsolve",
+   technique="bounded exhaustive enumeration: every unit face field x sign for the constant-field identities; every unit stream function (node/edge basis of the discretely solenoidal fields) x dt alphabet x alpha kind x scheme x BC set-up for the fixed-point property",
+   text="Constant-in-kernel and c*div(u) identities are decided on the full face basis of every grid instance; the steady-state property is run for every element of a basis of the discretely divergence-free velocity fields (unit nodal/edge stream functions, 1-D q/A) with every dt of the alphabet, scalar and per-cell alpha, upwind and central advection, Dirichlet and mixed no-flux boundaries; source terms with all-distinct beta, gamma. Exhaustive within the bounds.",
+   note="Solenoidal fields are built with the mid-point face areas implied by the library's divergenceTerm and the construction is asserted (divergenceTerm(u)==0) case by case; solver tolerance 64*eps*cond(M)*|c| - ill-conditioned dt values are reported as preconditions_failed.",
+   ref="DESIGN.md 4/C06"),
 }
 NOT_YET = {}
 
@@ -62,6 +75,7 @@ def main():
                   "source_commits": [], "add_only": True},
         "engines": [
             {"name": "A-opcheck", "path": "fvmc/opkit.py", "serves_properties": ["C01", "C05", "C06", "C11", "C17"], "kind_free_text": "basis-exhaustive operator algebra on every bounded grid instance"},
+            {"name": "B-cfgsolve", "path": "fvmc/checks", "serves_properties": ["C01", "C02", "C03", "C04", "C06", "C07", "C08", "C12", "C17"], "kind_free_text": "configuration lattice (class x shape x spacing x BC kind per side x term subset x dt ...) enumerated completely or to a stated deviation bound, each configuration run from scratch on the real solver"},
             {"name": "D-tables", "path": "fvmc/checks", "serves_properties": ["C10", "C13", "C16"], "kind_free_text": "complete finite tables against closed-form references"},
             {"name": "harness", "path": "fvmc/harness.py", "serves_properties": props, "kind_free_text": "deterministic case enumeration, parallel execution, known-findings matching, replay + evidence"},
         ],
